@@ -4,7 +4,7 @@ C01 part B2 — part 5: what `combineStd` returns for arbitrary groups / spectat
 legs, labels length, `qtotal`, and the stored blocks as a `GroupSpec` of the source rows `combineRow …`, with keys
 sorted (for the `_qdata_sorted` claim).
 -/
-namespace TenpyModel.C01B2
+namespace TenpyModel.C01B2.Comb
 open TenpyModel.Core TenpyModel.C01B
 
 variable {α : Type}
@@ -142,4 +142,4 @@ theorem combineStd_out (a : Arr α) (ha : W a) (cl : List (List Nat)) (newAxes :
           worker_keys_sorted (cRowsG a cl newAxes pipes)⟩
 
 end zero
-end TenpyModel.C01B2
+end TenpyModel.C01B2.Comb
